@@ -120,7 +120,7 @@ def _note_ok(e, fn, call_args):
             if f"{p}=" not in n:
                 ok = False
                 break
-            if isinstance(v, str) and f"{p}={v!r}" not in n:  # ints may arrive as numpy scalars
+            if isinstance(v, str) and v not in ("<NaN>", "<MASKED>") and f"{p}={v!r}" not in n:  # ints may arrive as numpy scalars
                 ok = False
                 break
         if ok:
